@@ -423,7 +423,8 @@ def main(argv=None):
         lines.append('VIOLATION property=%s replay=%s signature=%s (x%d)' % (prop, os.path.relpath(path, ROOT), sig, rec['count']))
     for r in m['inconclusive']:
         lines.append('INCONCLUSIVE property=%s reason=%s' % (prop, r))
-    for g in m['notes'].get('coverage_gaps', [])[:60]:
+    for g in m['notes'].get('unreached_lines', [])[:40]:
+        # reporting only: statement lines of the anchored bodies that no generated configuration executed
         lines.append('COVERAGE-GAP property=%s %s' % (prop, g))
 
     wall = time.time() - t0
